@@ -226,6 +226,8 @@ func effectsPass(w *World, id string) []*OwnOb {
 		out = append(out, checkMapRanges(w, lib)...)
 		out = append(out, checkPackageVars(w)...)
 		out = append(out, checkSortedMap(w)...)
+		// what a run writes is a function of its inputs, not of what the output file held before
+		out = append(out, checkOutputFileOpen(w, lib)...)
 	case "C05":
 		out = append(out, checkFormatTable(w)...)
 		out = append(out, checkOutputFileOpen(w, lib)...)
